@@ -15,7 +15,7 @@ for line in p.stdout.splitlines():
         src = m.group(1)
         binary = {'src/lib.rs': '', 'tests/integration.rs': 'integration::', 'tests/cli-help-version.rs': 'cli-help-version::', 'tests/expr_compile.rs': 'expr_compile::'}.get(src, None)
         if binary is None and src.startswith('src/bin'): binary = 'bin::'
-    m = re.match(r'test (\S+) \.\.\. (ok|FAILED|ignored)', line)
+    m = re.match(r'test (\S+)(?: - should panic)? \.\.\. (ok|FAILED|ignored)', line)
     if m and binary is not None:
         (ok if m.group(2) == 'ok' else bad).add('truth::' + binary + m.group(1))
 missing = [t for t in base['stable_pass'] if t not in ok]
